@@ -10,7 +10,12 @@ exact rational or an exact linear form over ln 2, ln 3, .., ln pi, e^q.
   standardised-noise invariance, log-density at a sample, entropy = E[-log p];
   softmax normalised, log-probability = log of the entry, entropy closed form;
   greedy in the arg-max set; eps = 0 greedy, eps = 1 value-independent) on every
-  lattice vector, and refutes four named deviation definitions (canaries).
+  lattice vector, and refutes five named deviation definitions (canaries).
+* The greedy selectors are specified on two lattices of Q rows: exactly tied /
+  well separated rationals, and NEAR-TIES - float32 values 0..3 ulps apart at
+  magnitudes 2^-40 .. 1000, both signs, across a binade and next to zero -
+  written as float32 ordinals (device D4), on which TLC decides the maximiser
+  set exactly; the binding turns the ordinals into the floats bit by bit.
 * TLC then prints one record per (head, method, batch code, width, lattice
   index); `run_heads` builds the real head on a pass-through network (the real
   GaussianMLP / MLP classes with identity kernels, so that the network output is
@@ -44,6 +49,9 @@ INVS = [
     "GreedyIsMaximiser",
     "EpsZeroIsGreedy",
     "EpsOneIgnoresValues",
+    "NearTieArgMaxExact",
+    "NearTieGreedyIsMaximiser",
+    "NearTieEpsZeroIsGreedy",
 ]
 # deviation definition in Heads.tla -> invariant that must refute it
 CANARIES = [
@@ -51,11 +59,13 @@ CANARIES = [
     ("no_half", "LogStdIsHalfLogVar"),
     ("logprob_unnormalised", "SoftmaxLogProbIsLogOfEntry"),
     ("eps_le", "EpsZeroIsGreedy"),
+    ("tie_jitter", "NearTieEpsZeroIsGreedy"),
 ]
 ACTIONS = [
     "GaussianCall", "GaussianSample", "GaussianLogProbability", "GaussianEntropy", "GaussianSampleMoments",
     "DeterministicCall", "SoftmaxCall", "SoftmaxLogits", "SoftmaxSample", "SoftmaxSampleFrequency",
     "SoftmaxLogProbability", "SoftmaxEntropy", "TableGreedy", "NetGreedy", "TableEpsilonGreedy",
+    "OrdinalLayout", "TableGreedyNearTie", "NetGreedyNearTie", "TableEpsilonGreedyNearTie",
 ]  # fmt: skip
 U = 2.0**-24  # unit roundoff of float32 (half an ulp, relative)
 WORKERS = int(os.environ.get("VERIF_TLC_WORKERS", "16"))
@@ -63,7 +73,7 @@ WORKERS = int(os.environ.get("VERIF_TLC_WORKERS", "16"))
 
 def _full(**kw):
     c = dict(EMIT=False, Batches={0, 1, 2, 3}, Dims={1, 2, 3}, Actions={1, 2, 3, 4}, States={1, 2, 3},
-             Step=1, EpsStep=16, NKeys=2, EpsKeys=2, FreqN=4096, FreqStep=1, Deviation="none")  # fmt: skip
+             Step=1, EpsStep=16, NKeys=2, EpsKeys=2, FreqN=4096, FreqStep=1, OrdStep=1, OrdKeys=2, Deviation="none")  # fmt: skip
     c.update(kw)
     return c
 
@@ -106,6 +116,35 @@ def _rat_rows(rows):
     return np.asarray(out, dtype=np.float32)
 
 
+NEAR = "@near_tie"  # suffix of the ops of Heads.tla's head "QOrd" (Q rows on float32 ordinals)
+MIN_NORMAL = float(np.finfo(np.float32).tiny)
+
+
+def float_of_ord(o):
+    """D4, the inverse of exact.ord32: ordinal -> float32 (bit pattern, sign-magnitude)."""
+    o = int(o)
+    v = np.array([abs(o)], dtype=np.int32).view(np.float32)[0]
+    return np.float32(-v) if o < 0 else v
+
+
+def _ord_rows(rows):
+    """rows of float32 ordinals -> float32 array; every entry must be 0 or a finite normal number and map back to its ordinal."""
+    out = np.asarray([[float_of_ord(o) for o in r] for r in rows], dtype=np.float32)
+    for r, fr in zip(rows, out):
+        for o, v in zip(r, fr):
+            if exact.ord32(v) != int(o) or not np.isfinite(v) or (v != 0 and abs(float(v)) < MIN_NORMAL):
+                raise tlc.MachineryError(f"ordinal {o} does not denote a normal float32 ({v!r})")
+    return out
+
+
+def check_layout(e):
+    """The D4.ordinal_layout record of Heads.tla against exact.ord32: float32(2^e (1 + m / 2^23)) has ordinal ord."""
+    for g in e["args"]["magnitudes"]:
+        v = np.float32(math.ldexp(1.0 + g["m"] / 2.0**23, g["e"]))
+        if float(v) != math.ldexp(1.0 + g["m"] / 2.0**23, g["e"]) or exact.ord32(v) != g["ord"] or float_of_ord(g["ord"]) != v:
+            raise tlc.MachineryError(f"Heads.tla's float32 ordinal of 2^{g['e']} (1 + {g['m']} / 2^23) is {g['ord']}, exact.ord32 says {exact.ord32(v)}")
+
+
 def _form_rows(rows):
     return np.asarray([[form_eval(f)[0] for f in r] for r in rows], dtype=np.float64)
 
@@ -138,6 +177,14 @@ class Kit:
         }
         self.eager = fns
         self.jitted = {k: nnx.jit(v) for k, v in fns.items()}
+        # the greedy selectors called from inside a caller's jitted function (table / observation traced)
+        self.jit_table_greedy = jax.jit(lambda t, o: value_policy.greedy_policy(t, o))
+        self.jit_net_greedy = nnx.jit(lambda net, o: q_policy.greedy_policy(net, o))
+
+    def nojit(self, fn, *a):
+        """fn(*a) with jit disabled: the Python body runs operation by operation."""
+        with self.jax.disable_jit():
+            return fn(*a)
 
     # networks whose output IS the observation (identity kernels, zero bias)
     def gauss_net(self, d, shared):
@@ -238,6 +285,55 @@ def _close(got, val, tol, what):
     return None
 
 
+# ------------------------------------------------------------------ near-ties
+def near_tie_case(kit: Kit, e, mode, seed):
+    """Head "QOrd": the greedy selectors on a table given as float32 ordinals.  Every way of calling the selector must
+    return a member of the arg-max set TLC computed on the ordinals (any member: ties may be broken anyhow)."""
+    op, a, x = e["op"][: -len(NEAR)], e["args"], e["exp"]
+    jnp = kit.jnp
+    table = _ord_rows(a["otable"])
+    s = int(a["obs"])
+    vp, qp = kit.value_policy, kit.q_policy
+    outs = []
+    if op == "value_policy.greedy_policy":
+        if mode == "jit":
+            outs.append(("called inside jax.jit", _call(kit.jit_table_greedy, jnp.asarray(table), jnp.asarray(s, jnp.int32))))
+        else:
+            outs.append(("", _call(vp.greedy_policy, jnp.asarray(table), s)))
+            outs.append(("with jit disabled", _call(kit.nojit, vp.greedy_policy, jnp.asarray(table), s)))
+    elif op == "q_policy.greedy_policy":
+        net = kit.qnet(table)
+        onehot = np.zeros(table.shape[0], np.float32)
+        onehot[s] = 1.0
+        q = np.asarray(net(jnp.asarray([onehot])))[0]
+        if q.tobytes() != table[s].tobytes():
+            raise tlc.MachineryError(f"stub Q-network returns {q.tolist()} for row {table[s].tolist()}")
+        if mode == "jit":
+            outs.append(("called inside nnx.jit", _call(kit.jit_net_greedy, net, jnp.asarray(onehot))))
+        else:
+            outs.append(("", _call(qp.greedy_policy, net, jnp.asarray(onehot))))
+            outs.append(("with jit disabled", _call(kit.nojit, qp.greedy_policy, net, jnp.asarray(onehot))))
+    elif op == "value_policy.epsilon_greedy_policy":
+        if a["eps"] != 0:  # pragma: no cover
+            raise tlc.MachineryError("near-tie cases are specified for epsilon = 0")
+        outs.append(("epsilon = 0", _call(vp.epsilon_greedy_policy, jnp.asarray(table), s, 0.0, kit.key(seed, e, extra=s))))
+    else:  # pragma: no cover
+        raise tlc.MachineryError(e["op"])
+    for how, out in outs:
+        bad = _shape(out, ())
+        if bad:
+            return bad
+        if not np.issubdtype(out.dtype, np.integer):
+            return f"action has dtype {out.dtype}"
+        act = int(out)
+        if act not in x["argmax"]:
+            qa = repr(float(table[s][act])) if 0 <= act < table.shape[1] else "out of range"
+            return (f"near-tie: action {act} (Q = {qa}) is not a maximiser of {[float(v) for v in table[s]]!r} "
+                    f"(float32 ordinals {a['otable'][s]}, arg-max set {x['argmax']}, the best value is {x['gap']} float32 step(s) above the next)"
+                    + (f" - {how}" if how else ""))
+    return None
+
+
 # ------------------------------------------------------------------ one case
 def check_case(kit: Kit, e, mode, seed, stats=None):
     """Run one TLC-emitted case against the real code.  Returns None or a
@@ -247,6 +343,8 @@ def check_case(kit: Kit, e, mode, seed, stats=None):
     name, _, meth = op.partition(".")
     fns = kit.jitted if mode == "jit" else kit.eager
     try:
+        if op.endswith(NEAR):
+            return near_tie_case(kit, e, mode, seed)
         if name in ("GaussianPolicy", "GaussianTanhPolicy"):
             pol = kit.head(name, n, a["space"])
             if meth == "sample_moments":
@@ -499,6 +597,8 @@ BINDING_CANARIES = [
     ("GaussianPolicy.sample", lambda e: _bump_rat(e["exp"]["mean"][0][0]), lambda e: e["args"]["net"][0][e["n"]] in ([0, 1], [-4, 1], [1, 1])),
     ("GaussianPolicy.call", lambda e: _bump_rat(e["exp"]["mean"][0][0]), lambda e: True),
     ("value_policy.greedy_policy", lambda e: e["exp"].__setitem__("argmax", [k for k in range(e["n"]) if k not in e["exp"]["argmax"]]), lambda e: 0 < len(e["exp"]["argmax"]) < e["n"]),
+    ("value_policy.epsilon_greedy_policy" + NEAR, lambda e: e["exp"].__setitem__("argmax", [k for k in range(e["n"]) if k not in e["exp"]["argmax"]]), lambda e: 0 < len(e["exp"]["argmax"]) < e["n"] and e["exp"]["gap"] == 1),
+    ("q_policy.greedy_policy" + NEAR, lambda e: e["exp"].__setitem__("argmax", [k for k in range(e["n"]) if k not in e["exp"]["argmax"]]), lambda e: 0 < len(e["exp"]["argmax"]) < e["n"] and e["exp"]["gap"] == 1),
 ]
 
 
@@ -552,6 +652,8 @@ GROUPS = [
     ("SoftmaxPolicy.call", "SoftmaxPolicy.logits", "SoftmaxPolicy.entropy"),
     ("SoftmaxPolicy.log_probability", "q_policy.greedy_policy"),
     ("SoftmaxPolicy.sample", "SoftmaxPolicy.sample_frequency"),
+    ("value_policy.greedy_policy" + NEAR, "q_policy.greedy_policy" + NEAR),
+    ("value_policy.epsilon_greedy_policy" + NEAR,),
 ]
 
 
@@ -561,7 +663,9 @@ def _canary(dev, inv):
     return dev, inv, r
 
 
-def _key_of(e):
+def _key_of(e, what=None):
+    if e["op"].endswith(NEAR):
+        return e["op"][: -len(NEAR)] + (":near_tie_not_a_maximiser" if what and "is not a maximiser" in what else ":not_as_specified")
     return f"{e['op'].replace('.call', '.__call__')}:not_as_specified"
 
 
@@ -577,11 +681,15 @@ def run_heads(rep):
     # generation constants: A = every shape, sparse lattice, run eagerly (as a user calls the methods);
     # B = dense lattice, run under nnx.jit (as the losses and rollouts call them)
     st = {1, 3} if quick else {1, 2, 3}
-    gen_a = _full(EMIT=True, States=st, Step=60 if quick else 10, EpsStep=256, NKeys=1, EpsKeys=1, FreqN=2048, FreqStep=60)
+    # near-tie rows (OrdStep, OrdKeys): strides coprime to 4 and to the number of bases (13), so that at every base
+    # every action takes every level
+    gen_a = _full(EMIT=True, States=st, Step=60 if quick else 10, EpsStep=256, NKeys=1, EpsKeys=1, FreqN=2048, FreqStep=60,
+                  OrdStep=41 if quick else 3, OrdKeys=2)  # fmt: skip
     if quick:
-        gen_b = _full(EMIT=True, Batches={0, 3}, Dims={1, 3}, Actions={2, 4}, States=st, Step=1, EpsStep=32, NKeys=2, EpsKeys=8, FreqStep=8)
+        gen_b = _full(EMIT=True, Batches={0, 3}, Dims={1, 3}, Actions={2, 4}, States=st, Step=1, EpsStep=32, NKeys=2, EpsKeys=8, FreqStep=8,
+                      OrdStep=7, OrdKeys=3)  # fmt: skip
     else:
-        gen_b = _full(EMIT=True, Step=1, EpsStep=8, NKeys=3, EpsKeys=16, FreqStep=2)
+        gen_b = _full(EMIT=True, Step=1, EpsStep=8, NKeys=3, EpsKeys=16, FreqStep=2, OrdStep=1, OrdKeys=6)
     with cf.ThreadPoolExecutor(max_workers=8) as ex, cf.ProcessPoolExecutor(max_workers=len(GROUPS) + 1, mp_context=mp.get_context("spawn")) as pool:
         f_self = ex.submit(tlc.run, "HeadsFormsTest", tlc.cfg_text(), workers=1, tag="formstest")
         f_a = ex.submit(tlc.run, "Heads", tlc.cfg_text(constants=gen_a), workers=1, tag="heads-genA")
@@ -592,6 +700,12 @@ def run_heads(rep):
         if not ga.emitted or not gb.emitted:
             raise tlc.MachineryError("TLC emitted no cases")
         items = [("eager", e) for e in ga.emitted] + [("jit", e) for e in gb.emitted]
+        layouts = [e for _, e in items if e["op"] == "D4.ordinal_layout"]
+        if not layouts:
+            raise tlc.MachineryError("Heads.tla did not state the float32 ordinal layout")
+        for e in layouts:
+            check_layout(e)
+        items = [(m, e) for m, e in items if e["op"] != "D4.ordinal_layout"]
         known = {op for g in GROUPS for op in g}
         missing = {e["op"] for _, e in items} - known
         if missing:
@@ -640,8 +754,8 @@ def run_heads(rep):
         if nontrivial(e):
             nontriv.add((e["op"], e["b"], e["n"], e["i"], e["args"].get("key", 0), e["args"].get("obs", 0), e["args"].get("eps", 0)))
         if j in bad:
-            bs = "un-batched" if e["b"] == 0 else f"batch {e['b']}"
-            rep.violation(_key_of(e), f"{e['op']} ({bs}, width {e['n']}, lattice index {e['i']}, {mode}): {bad[j]}", {"part": "heads", "mode": mode, "case": e})
+            bs = f"table of {e['b']} row(s)" if e.get("head") in ("Q", "QOrd") else "un-batched" if e["b"] == 0 else f"batch {e['b']}"
+            rep.violation(_key_of(e, bad[j]), f"{e['op']} ({bs}, width {e['n']}, lattice index {e['i']}, {mode}): {bad[j]}", {"part": "heads", "mode": mode, "case": e})
         elif nontrivial(e) and e["b"] > 1 and e["op"] not in samples:
             samples[e["op"]] = {"mode": mode, "case": e}
     cases = len(items)
@@ -655,13 +769,27 @@ def run_heads(rep):
     rep.evaluations += cases
     rep.distinct += len(nontriv)
     rep.exhaustive = True
-    for op in ("GaussianTanhPolicy.entropy", "GaussianPolicy.log_probability", "SoftmaxPolicy.entropy"):
+    near = [(m, e) for m, e in items if e["op"].endswith(NEAR)]
+    near_rows = {tuple(e["args"]["otable"][e["args"]["obs"]]) for _, e in near}
+    near_stats = {
+        "cases": len(near),
+        "distinct_rows": len(near_rows),
+        "rows_with_best_one_float32_step_above_next": len({tuple(e["args"]["otable"][e["args"]["obs"]]) for _, e in near if e["exp"]["gap"] == 1}),
+        "rows_with_two_or_more_but_not_all_actions_tied_for_best": len({tuple(e["args"]["otable"][e["args"]["obs"]]) for _, e in near if 1 < len(e["exp"]["argmax"]) < e["n"]}),
+        "epsilon0_cases_with_unique_maximiser": sum(1 for _, e in near if e["op"].startswith("value_policy.epsilon") and len(e["exp"]["argmax"]) == 1 and e["n"] > 1),
+    }
+    if not near_stats["rows_with_best_one_float32_step_above_next"] or not near_stats["epsilon0_cases_with_unique_maximiser"]:
+        raise tlc.MachineryError("no near-tie row whose best value is one float32 step above the next (vacuous near-tie lattice)")
+    for op in ("GaussianTanhPolicy.entropy", "GaussianPolicy.log_probability", "SoftmaxPolicy.entropy", "value_policy.epsilon_greedy_policy" + NEAR):
         if op in samples:
             rep.sample(samples[op])
     rule = (
         "Heads.tla: TLC enumerates (head, method, batch code 0(un-batched)/1/2/3, width 1-3 (actions 1-4), lattice index): "
         "log-variance in {-50,-4,0,1,10}, mean / tanh pre-activation in {0,-1,3/2} / {0,-40,40}, action-mean in {0,-1,1/2,2}, "
-        "softmax logits on levels OFF, 0, ln2, 2ln2 (+ rows shifted by 1e4), Q rows over {-1,0,1/2,2}; each record carries the specified shape "
+        "softmax logits on levels OFF, 0, ln2, 2ln2 (+ rows shifted by 1e4), Q rows over {-1,0,1/2,2} and near-tie Q rows = four consecutive float32 "
+        "numbers (as float32 ordinals; arg-max set decided by TLC on the ordinals) upwards from 2^-40, 2^-23, 1/2, 1-2^-23, 1, 1000, their mirror images "
+        "below zero, and {-2^-126, 0, 2^-126, next}, for greedy (direct, jit disabled, inside a caller's jit), network greedy and epsilon-greedy "
+        "with epsilon 0 under several keys; each record carries the specified shape "
         "and value (rational or linear form over ln p, ln pi, e^q); non-trivial = some log-variance != 0 / more than one action / arg-max set not everything"
     )
     rep.rule = (rep.rule + " || " if rep.rule else "") + rule
@@ -671,6 +799,7 @@ def run_heads(rep):
         "sample_elements": stats["noise_elems"],
         "sample_elements_noise_visible": stats["noise_visible"],
         "epsilon1_draws": {str(k): len(v) for k, v in stats["explore"].items()},
+        "near_tie": near_stats,
         "canaries_refuted": [d for d, _ in CANARIES],
         "max_error_over_tolerance": {k: round(v, 3) for k, v in sorted(headroom.items())},
         "seconds_by_method": {k: round(t, 1) for k, t in sorted(tims.items()) if t >= 1.0},
@@ -680,6 +809,8 @@ def run_heads(rep):
         "heads: an OFF logit lies 1e4 below the others; its probability (< 1e-4342) is modelled as 0",
         "heads: noise is 'standard normal' up to a 6-sigma test of mean and variance; frequencies of softmax samples up to 6 sigma",
         "heads: trusted - float64 values of ln p, ln pi, e^q; the pass-through networks (real GaussianMLP / MLP with identity kernels); TLC",
+        "heads: near-tie Q rows are normal float32 numbers or 0: subnormal Q-values (|q| < 2^-126), which XLA on CPU flushes to zero, are outside the lattice; "
+        "the order of float32 ordinals is the order of the floats (exact.ord32, cross-checked against Heads.tla's layout record)",
     ]
 
 
@@ -699,5 +830,5 @@ def replay_heads(d, rep):
     if what is None:
         print("agrees with the specification")
         return 0
-    print(f"still disagrees ({_key_of(e)}):", what)
+    print(f"still disagrees ({_key_of(e, what)}):", what)
     return 1
